@@ -811,13 +811,21 @@ func (rd *renderer) blockAt(b *Block, L int) {
 		si := rd.span("url:"+b.Path, "URL", begin, rd.sb.Len(), 0)
 		rd.lastPaste = ""
 		rd.withChildren(L, true, func() {
-			pb := rd.directive(L+1, "Protocol", []string{"json-rpc-2.0"}, "")
-			rd.span("url:"+b.Path+"/protocol", "Protocol", pb, rd.sb.Len(), 1)
+			proto := func() {
+				pb := rd.directive(L+1, "Protocol", []string{"json-rpc-2.0"}, "")
+				rd.span("url:"+b.Path+"/protocol", "Protocol", pb, rd.sb.Len(), 1)
+			}
+			if b.ProtoAfter == 0 {
+				proto()
+			}
 			if b.Tags != nil {
 				tb := rd.directive(L+1, "Tags", b.Tags, "")
 				rd.span("url:"+b.Path+"/tags", "Tags", tb, rd.sb.Len(), 1)
 			}
-			for _, m := range b.RPC {
+			for mi0, m := range b.RPC {
+				if b.ProtoAfter > 0 && mi0 == b.ProtoAfter {
+					proto()
+				}
 				label := "rpc:" + m.Name + " " + b.Path
 				mb := rd.directive(L+1, "Method", []string{rd.param(m.Name)}, m.Annotation)
 				mi := rd.span(label, "Method", mb, rd.sb.Len(), 1)
@@ -842,6 +850,9 @@ func (rd *renderer) blockAt(b *Block, L int) {
 					}
 				})
 				rd.finish(mi)
+			}
+			if b.ProtoAfter > 0 && b.ProtoAfter >= len(b.RPC) {
+				proto()
 			}
 		})
 		rd.finish(si)
